@@ -272,3 +272,169 @@ Proof.
   - exists [0; 0; 0; 0; 0]. exists 0, 1. eexists _, _, L_alternatives, true, false. cbn. repeat split; auto; discriminate.
   - exists []. exists 0, 1. eexists _, _, L_cache_entries, true, true. cbn. repeat split; auto; discriminate.
 Qed.
+
+(* ---------- lock order => no deadlock ---------- *)
+Section Order.
+Variable rank : nat -> nat.
+Notation oscan := (oscan rank).
+Notation ordered := (ordered rank).
+
+Lemma oscan_app : forall a h b, oscan h (a ++ b) = match oscan h a with Some h' => oscan h' b | None => None end.
+Proof.
+  induction a as [|x a IH]; intros h b; [reflexivity|]. destruct x; cbn [Locks.oscan app].
+  - destruct (forallb (fun x => rank x <? rank m) h); [apply IH|reflexivity].
+  - destruct (mem_nat m h); [apply IH|reflexivity].
+  - apply IH.
+  - apply IH.
+Qed.
+
+Lemma oscan_ops : forall ops, forallb (ordered []) ops = true -> oscan [] (concat ops) = Some [].
+Proof.
+  induction ops as [|o ops IH]; cbn; intros H; [reflexivity|].
+  apply andb_true_iff in H. destruct H as (H1 & H2). rewrite oscan_app. unfold Locks.ordered in H1.
+  destruct (Locks.oscan rank [] o) as [[|x h]|]; try discriminate H1. apply IH. exact H2.
+Qed.
+
+Definition oinv (c : cfg) : Prop := forall t, In t c -> ordered (fst t) (snd t) = true.
+
+Lemma in_set_nth : forall A (l : list A) i x y, In y (set_nth i x l) -> y = x \/ In y l.
+Proof.
+  induction l as [|a l IH]; intros [|i] x y H; cbn in H; try contradiction.
+  - destruct H as [H|H]; [left; symmetry; exact H|right; right; exact H].
+  - destruct H as [H|H]; [right; left; exact H|]. destruct (IH i x y H) as [E|I]; [left; exact E|right; right; exact I].
+Qed.
+
+Lemma oinv_step : forall c i c', oinv c -> step c i = Some c' -> oinv c'.
+Proof.
+  intros c i c' I H. unfold step in H. destruct (nth_error c i) as [[h p]|] eqn:Ei; [|discriminate].
+  destruct (thread_step c (h, p)) as [[h' p']|] eqn:Et; [|discriminate]. inversion H; subst c'; clear H.
+  pose proof (I (h, p) (nth_error_In _ _ Ei)) as O. cbn [fst snd] in O.
+  intros t It. destruct (in_set_nth _ _ _ _ _ It) as [E|It']; [|apply I; exact It']. subst t. cbn [fst snd].
+  unfold thread_step in Et. unfold Locks.ordered in *. destruct p as [|a r]; [discriminate|]. cbn [Locks.oscan] in O.
+  destruct a as [m|m|l|l].
+  - destruct (held_by_someone m c); [discriminate|]. inversion Et; subst.
+    destruct (forallb (fun x => rank x <? rank m) h); [exact O|discriminate].
+  - destruct (mem_nat m h); [|discriminate]. inversion Et; subst. exact O.
+  - inversion Et; subst. exact O.
+  - inversion Et; subst. exact O.
+Qed.
+
+Lemma oinv_init : forall progs, well_ordered rank progs = true -> oinv (init_cfg progs).
+Proof.
+  intros progs W t It. unfold init_cfg in It. apply in_map_iff in It. destruct It as (p & E & Ip). subst t. cbn.
+  unfold well_ordered in W. rewrite forallb_forall in W. apply W. exact Ip.
+Qed.
+
+Lemma oinv_reach : forall progs c, well_ordered rank progs = true -> reach (init_cfg progs) c -> oinv c.
+Proof.
+  intros progs c W R. induction R as [|c i c' R IH Hs]; [apply oinv_init; exact W|eapply oinv_step; eauto].
+Qed.
+
+(* what a stuck thread looks like *)
+Lemma stuck_thread : forall c t, ordered (fst t) (snd t) = true -> snd t <> [] -> thread_step c t = None ->
+  exists m r, snd t = Acq m :: r /\ held_by_someone m c = true /\ forall x, In x (fst t) -> rank x < rank m.
+Proof.
+  intros c [h p] O N S. cbn [fst snd] in *. unfold Locks.ordered in O. destruct p as [|a r]; [congruence|].
+  cbn [Locks.oscan] in O. unfold thread_step in S. destruct a as [m|m|l|l]; try discriminate S.
+  - exists m, r. split; [reflexivity|]. destruct (held_by_someone m c); [|discriminate S]. split; [reflexivity|].
+    destruct (forallb (fun x => rank x <? rank m) h) eqn:F; [|discriminate O].
+    intros x Ix. rewrite forallb_forall in F. apply Nat.ltb_lt. apply F. exact Ix.
+  - destruct (mem_nat m h); [discriminate S|discriminate O].
+Qed.
+
+Lemma finished_holds_nothing : forall t, ordered (fst t) (snd t) = true -> snd t = [] -> fst t = [].
+Proof. intros [h p] O E. cbn [fst snd] in *. subst p. unfold Locks.ordered in O. cbn in O. destruct h; [reflexivity|discriminate]. Qed.
+
+(* the largest rank some thread is waiting for *)
+Definition await (t : thread) : option nat := match snd t with Acq m :: _ => Some (rank m) | _ => None end.
+Fixpoint maxwait (c : cfg) : option nat :=
+  match c with
+  | [] => None
+  | t :: r => match await t, maxwait r with
+              | Some a, Some b => Some (Nat.max a b)
+              | Some a, None => Some a
+              | None, o => o
+              end
+  end.
+
+Lemma maxwait_upper : forall c t j, In t c -> await t = Some j -> exists k, maxwait c = Some k /\ j <= k.
+Proof.
+  induction c as [|a c IH]; intros t j I A; [contradiction|]. cbn. destruct I as [I|I].
+  - subst a. rewrite A. destruct (maxwait c) as [b|]; eexists; split; try reflexivity; lia.
+  - destruct (IH t j I A) as (k & E & L). rewrite E. destruct (await a) as [x|]; eexists; split; try reflexivity; lia.
+Qed.
+
+Lemma maxwait_attained : forall c k, maxwait c = Some k -> exists t, In t c /\ await t = Some k.
+Proof.
+  induction c as [|a c IH]; intros k H; [discriminate|]. cbn in H.
+  destruct (await a) as [x|] eqn:A; destruct (maxwait c) as [b|] eqn:M.
+  - inversion H; subst. destruct (Nat.max_spec x b) as [(L & E)|(L & E)]; rewrite E.
+    + destruct (IH b eq_refl) as (t & I & At). exists t. split; [right; exact I|exact At].
+    + exists a. split; [left; reflexivity|exact A].
+  - inversion H; subst. exists a. split; [left; reflexivity|exact A].
+  - destruct (IH k H) as (t & I & At). exists t. split; [right; exact I|exact At].
+  - discriminate.
+Qed.
+
+Theorem ordered_no_deadlock : forall c, oinv c -> unfinished c -> can_move c.
+Proof.
+  intros c I (i0 & t0 & E0 & N0).
+  destruct (existsb (fun t => match thread_step c t with Some _ => true | None => false end) c) eqn:X.
+  - apply existsb_exists in X. destruct X as (t & It & St). destruct (thread_step c t) as [t'|] eqn:Et; [|discriminate].
+    destruct (In_nth_error _ _ It) as (i & Ei). exists i. unfold step. rewrite Ei, Et. eexists. reflexivity.
+  - exfalso.
+    assert (S : forall t, In t c -> thread_step c t = None).
+    { intros t It. destruct (thread_step c t) eqn:Et; [|reflexivity].
+      assert (Y : existsb (fun t => match thread_step c t with Some _ => true | None => false end) c = true)
+        by (apply existsb_exists; exists t; split; [exact It|rewrite Et; reflexivity]). congruence. }
+    pose proof (nth_error_In _ _ E0) as I0.
+    destruct (stuck_thread c t0 (I t0 I0) N0 (S t0 I0)) as (m0 & r0 & P0 & _ & _).
+    assert (A0 : await t0 = Some (rank m0)) by (unfold await; rewrite P0; reflexivity).
+    destruct (maxwait_upper c t0 _ I0 A0) as (k & Mk & _).
+    destruct (maxwait_attained c k Mk) as (t & It & At).
+    assert (Nt : snd t <> []) by (unfold await in At; destruct (snd t); [discriminate|discriminate]).
+    destruct (stuck_thread c t (I t It) Nt (S t It)) as (m & r & P & Hm & _).
+    unfold await in At. rewrite P in At. inversion At as [Ek].
+    (* somebody holds m; that thread is unfinished, hence waiting for a mutex of larger rank *)
+    unfold held_by_someone in Hm. apply existsb_exists in Hm. destruct Hm as (tj & Ij & Mj). apply mem_nat_true in Mj.
+    assert (Nj : snd tj <> []).
+    { intros Ej. rewrite (finished_holds_nothing tj (I tj Ij) Ej) in Mj. contradiction. }
+    destruct (stuck_thread c tj (I tj Ij) Nj (S tj Ij)) as (mj & rj & Pj & _ & Lj).
+    assert (Aj : await tj = Some (rank mj)) by (unfold await; rewrite Pj; reflexivity).
+    destruct (maxwait_upper c tj _ Ij Aj) as (k' & Mk' & Lk). rewrite Mk in Mk'. inversion Mk'; subst k'.
+    specialize (Lj m Mj). lia.
+Qed.
+
+Theorem lock_order_deadlock_free : forall progs, well_ordered rank progs = true ->
+  forall c, reach (init_cfg progs) c -> unfinished c -> can_move c.
+Proof. intros progs W c R U. apply ordered_no_deadlock; [eapply oinv_reach; eauto|exact U]. Qed.
+End Order.
+
+Lemma lib_ops_ordered : forallb (ordered lib_rank []) lib_ops = true.
+Proof. vm_compute. reflexivity. Qed.
+
+Theorem library_deadlock_free : forall (reqs : list (list nat)) c,
+  reach (init_cfg (map prog_of_ids reqs)) c -> unfinished c -> can_move c.
+Proof.
+  intros reqs c. apply (lock_order_deadlock_free lib_rank). unfold well_ordered. apply forallb_forall.
+  intros p Hp. apply in_map_iff in Hp. destruct Hp as (ks & E & _). subst p. unfold ordered, prog_of_ids.
+  rewrite flat_map_concat_map. rewrite oscan_ops; [reflexivity|]. apply forallb_forall. intros o Io.
+  apply in_map_iff in Io. destruct Io as (k & Ek & _). subst o. unfold op_of_id.
+  destruct (nth_in_or_default k lib_ops []) as [I|E].
+  - pose proof lib_ops_ordered as T. rewrite forallb_forall in T. apply T. exact I.
+  - rewrite E. reflexivity.
+Qed.
+
+(* a lock-order inversion does deadlock: two goroutines taking two mutexes in opposite orders *)
+Theorem inverted_order_deadlocks :
+  exists c, reach (init_cfg [[Acq 0; Acq 1; Rel 1; Rel 0]; [Acq 1; Acq 0; Rel 0; Rel 1]]) c /\ unfinished c /\ ~ can_move c.
+Proof.
+  exists (run_sched (init_cfg [[Acq 0; Acq 1; Rel 1; Rel 0]; [Acq 1; Acq 0; Rel 0; Rel 1]]) [0; 1]).
+  split; [|split].
+  - assert (G : forall sched c0 c, reach c0 c -> reach c0 (run_sched c sched)).
+    { induction sched as [|i r IH]; intros c0 c R; cbn; [exact R|].
+      destruct (step c i) as [c'|] eqn:E; [apply IH; eapply reach_step; eauto|apply IH; exact R]. }
+    apply G. apply reach_refl.
+  - exists 0. eexists. cbn. split; [reflexivity|discriminate].
+  - intros (i & c' & H). destruct i as [|[|[|i]]]; vm_compute in H; discriminate H.
+Qed.
